@@ -4,7 +4,7 @@ ID = "C15"; DRIVER = "c15"; MODEL = "c15"
 COQ_PROPS = ["Properties_C15.v"]; COQ_EXTRACT = "Extract_C15.v"
 LEVEL = "proof"
 RULE = ("cases = explicit tree automata over {a/0,b/0,g/1,f/2}(+h/3): corpus; complete slice (all automata with <=2 states and <=3 rules); targeted "
-        "(only leaves accepted, deep witnesses = chains, unproductive final states, final state reached by a leaf rule, all rules used); random up to "
+        "(only leaves accepted, deep witnesses = chains, unproductive final states, final state reached by a leaf rule, all rules used); histories (the call repeated on objects derived from earlier operands and results: selective copies with other final states, final states replaced or a rule added in place); random up to "
         "5 states. Non-trivial = non-empty language and the witness is a proper sub-automaton; distinct by rule/final sets")
 EXHAUSTIVE_SLICES = "all automata with 1 state,<=4 rules and 2 states,<=3 rules over {a/0,b/0,g/1,f/2}, every final set (the run as a whole is not exhaustive)"
 TRUSTED_BASE = [
@@ -36,6 +36,22 @@ def cases(rng, tier):
         a = gen.rand_ta_sized(rng, 3, 6, leafbias=0.5, pfinal=0.5)
         for q in sorted(a.states()): a.rules.append((rng.choice([0, 1]), q, ()))
         cs.append(("cand " + a.fmt(), "targeted"))
+    for _ in range(1500 if tier == "quick" else 20000):   # histories: the call repeated on objects derived from earlier operands / results
+        a = gen.rand_ta_sized(rng, 5, 9, sigma=rng.choice([gen.SIGMA, gen.SIGMA_U]), leafbias=rng.choice([0.2, 0.4]), pfinal=rng.choice([0.3, 0.8]))
+        if rng.random() < 0.3:
+            for q in sorted(a.states()): a.rules.append((rng.choice([0, 1]), q, ()))
+        st = sorted(a.states()) or [0]
+        line = "candh " + a.fmt()
+        for _ in range(rng.randint(1, 4)):
+            mode = rng.choice([0, 1, 1, 2, 5, 5])
+            if mode == 5:
+                f, k = rng.choice(gen.SIGMA)
+                line += " 5 %d %d %d %s" % (f, rng.choice(st), k, " ".join(str(rng.choice(st)) for _ in range(k)))
+                line = line.rstrip()
+            else:
+                fin = [q for q in st if rng.random() < 0.3] or [rng.choice(st)]
+                line += " %d %d %s" % (mode, len(fin), " ".join(str(f) for f in fin))
+        cs.append((line, "history"))
     n = 3000 if tier == "quick" else 60000
     for _ in range(n):
         a = gen.rand_ta_sized(rng, 5, 10, sigma=rng.choice([gen.SIGMA, gen.SIGMA3]), leafbias=rng.choice([0.15, 0.35]))
@@ -45,10 +61,27 @@ def cases(rng, tier):
 def nontrivial(c, impl, verd): t = verd.split(); return "nonempty" in t and "proper" in t
 def observe(dist, c, impl, verd):
     for k in verd.split():
-        if k in ("empty", "nonempty", "whole", "proper", "as_model", "other_witness"): dist[k] = dist.get(k, 0) + 1
-def shrink_candidates(c): return gen.shrink_automata(c)
+        if k in ("empty", "nonempty", "whole", "proper", "as_model", "other_witness", "history"): dist[k] = dist.get(k, 0) + 1
+def shrink_candidates(c):
+    if not c.startswith("candh"): return gen.shrink_automata(c)
+    return shrink_history(c)
+def shrink_history(c):
+    """drop a stage; drop a rule / final state of the first automaton"""
+    items = gen.split_case(c); a = items[1]; rest = items[2:]
+    stages = []; i = 0
+    while i < len(rest):
+        n = 4 + int(rest[i + 3]) if rest[i] == "5" else 2 + int(rest[i + 1])
+        stages.append(rest[i:i + n]); i += n
+    for k in range(len(stages)):
+        yield gen.join_case([items[0], a] + [x for j, s in enumerate(stages) if j != k for x in s])
+    for j in range(len(a.rules)):
+        b = a.copy(); b.rules.pop(j)
+        yield gen.join_case([items[0], b] + rest)
+    for j in range(len(a.finals)):
+        b = a.copy(); b.finals.pop(j)
+        yield gen.join_case([items[0], b] + rest)
 def explain(c, impl, verd):
-    return "case = cand <A>; impl = R <GetCandidateTree result> I <operand afterwards>; gate witness = L(R) included in L(A) and R non-empty whenever A is (C15_gate)"
+    return "case = cand <A> (candh <A> stages: 0/1/2 <finals> = selective copy of the current object / the same object with its final states replaced / selective copy of the last result, 5 <rule> = AddTransition in place; each stage prints V <value> and the call again, gates prefixed again_; history_value = the derived object does not show the value it must); impl = R <GetCandidateTree result> I <operand afterwards>; gate witness = L(R) included in L(A) and R non-empty whenever A is (C15_gate)"
 LEVEL_TEXT = ("Coq theorems (all automata, no bounds): (A) a model of the search itself (all nullary rules, then rounds keeping one justifying rule per newly reached state, reached final states, top-down pruning) yields, for every order of the rules, a sub-automaton that is non-empty whenever A is (invariant: every reached state has a tree over the kept rules; the rounds stop at a closed set, which contains every productive state); (gate) the boolean gate evaluated on libvata's witness decides exactly the property (sub-language; "
               "non-empty whenever A is), and every sub-automaton that is non-empty whenever A is satisfies it. Tie to the C++: GetCandidateTree of "
               "libvata rebuilt from /repo on generated automata (complete small slice + targeted + random) judged by the extracted verified gate.")
